@@ -29,6 +29,11 @@ type netSpec struct {
 	// OutOrder[k]-th output neuron); NodeOrder the order of all neurons in the node list. Only direct builds honour them.
 	OutOrder  []int
 	NodeOrder []int
+	// InAlias: the inputs list handed to NewNetwork is a sub-slice of the node list (all[:k], spare capacity behind it) instead of
+	// a list of its own. NodeParams, when set, are assigned to the exported Params field of the neurons (auxiliary parameters
+	// which no built-in activation function reads).
+	InAlias    bool
+	NodeParams [][]float64
 }
 
 func (s *netSpec) total() int   { return s.NIn + s.NBias + s.NHid + s.NOut }
@@ -128,6 +133,9 @@ func (s *netSpec) build() *network.Network {
 	ns := s.sensors()
 	total := s.total()
 	nodes := make([]*network.NNode, total)
+	if s.InAlias {
+		nodes = make([]*network.NNode, total, 2*total+2) // a list grown by append has spare capacity behind it
+	}
 	var in, out []*network.NNode
 	for i := 0; i < total; i++ {
 		switch {
@@ -149,6 +157,14 @@ func (s *netSpec) build() *network.Network {
 		l := nodes[e.To].ConnectFrom(nodes[e.From], e.W)
 		l.IsRecurrent = e.Back || e.RecFlag
 		l.IsTimeDelayed = e.Delayed
+	}
+	if len(s.NodeParams) == total {
+		for i := ns; i < total; i++ {
+			nodes[i].Params = append([]float64{}, s.NodeParams[i]...)
+		}
+	}
+	if s.InAlias && len(s.NodeOrder) != len(nodes) {
+		in = nodes[:ns]
 	}
 	if len(s.OutOrder) == len(out) {
 		po := make([]*network.NNode, len(out))
@@ -299,7 +315,7 @@ func (s *netSpec) full() map[string]interface{} {
 		acts[i], _ = neatmath.NodeActivators.ActivationNameFromType(a)
 	}
 	return map[string]interface{}{"inputs": s.NIn, "bias": s.NBias, "hidden": s.NHid, "outputs": s.NOut, "edges": edges, "activations_by_node": acts,
-		"outputs_list_order": s.OutOrder, "node_list_order": s.NodeOrder}
+		"outputs_list_order": s.OutOrder, "node_list_order": s.NodeOrder, "inputs_list_is_slice_of_node_list": s.InAlias, "node_params": s.NodeParams}
 }
 
 // netModule a MIMO module laid over the nodes of a netSpec: control node with inputs and one output (the module
